@@ -70,7 +70,7 @@ func Marshal(w io.Writer, packet interface{}) (n int64, err error) {
 		field := p.Field(i)
 		switch field.Kind() {
 		case reflect.String:
-			writeCString(&buf, field.String())
+			err = writeCString(&buf, field.String())
 		case reflect.Uint8:
 			buf.WriteByte(byte(field.Uint()))
 		case reflect.Bool:
